@@ -3,7 +3,7 @@
 /verif/seeded/<id>/ (patch.diff, demonstration, meta.json)."""
 import json, os, shutil, sys, glob
 prop, X, mid, needs, detected = sys.argv[1:6]
-src = f"/tmp/mut/out/{prop}/{X}"
+src = os.environ.get("MUTROOT", "/tmp/mut") + f"/out/{prop}/{X}"
 dst = f"/verif/seeded/{mid}"
 os.makedirs(dst, exist_ok=True)
 shutil.copy(f"{src}/patch.diff", dst)
